@@ -20,7 +20,7 @@ def suite():
     return all(" ok." in l and " 0 failed" in l for l in lines) and len(lines) >= 4, lines
 
 res = {"property": pid.upper(), "mutant": X}
-sh("git checkout -- . && git clean -fdq", W)
+sh("git reset -q --hard && git clean -fdq", W)
 head = sh("git -C /repo rev-parse HEAD")[1].strip()
 sh("git checkout -q --detach %s" % head, W)          # the worktree follows /repo's HEAD
 demo_name = "demo_%s_%s" % (pid, X.lower())
@@ -31,6 +31,8 @@ res["demo_passes_without_change"] = (rc0 == 0 and "test result: ok" in out0)
 rc, out = sh("git apply %s/patch.diff" % src, W)
 if rc != 0:
     rc, out = sh("git apply --3way %s/patch.diff && git reset -q" % src, W)
+    if rc != 0:
+        sh("git reset -q --hard", W)
 res["patch_applies"] = rc == 0
 rebased = sh("git diff", W)[1]
 rc1, out1 = sh("cargo test --offline --test %s 2>&1 | tail -15" % demo_name, W)
